@@ -90,6 +90,11 @@ CHECKS = {
    text='Subtraction, subtract-with-compare, div-mod (incl. b = 0), integer square root, the equality gadget against every constant 0..2^(n+1), plus-one through generate_plus_one and add_plus_one (add_outputs F/T, result labels given or not), if-then-else and the pairwise gadgets are called for all small widths, both endiannesses, on fresh inputs and on arbitrary (repeated) gates of random host circuits; TLC evaluates the recorded circuit on ALL operand values and judges the integer identities, that outputs are extended iff asked, that returned labels exist and that pre-existing gates keep their function.',
    note='Trusted: TLC, Arith.tla / JudgeArith, recorder (endianness contract).',
    tech='TLA+ reference arithmetic evaluated by TLC on circuits recorded from the generators'),
+
+ 'C04': dict(cat='exploration', ref='5 (C04), 14.4',
+   text='Seeded random circuits over the supported gate set (with and without functionally equivalent gates) x bases x size / cut / limit / time-limit / validation settings; every minimize_subcircuits call runs in its own interpreter under a seed-chosen PYTHONHASHSEED and a seed-perturbed cut family (shim enumerator, the supplied family is recorded). TLC judges the returned circuit against a deep copy of the argument: same inputs, same number of outputs, same truth table, not more non-trivial gates; FailedValidationError never; no internal error on circuits TLC finds free of equivalent gates. The function has ten listed known findings (DESIGN 14.4); a failure is attributed to one only if a named deviation operator of the specification explains it (wrong-result findings) or its call-site signature matches (internal errors); anything else is a VIOLATION.',
+   note='Trusted: TLC, JudgePass.C04Fails and the deviation operators, the cut-enumerator and solver shims (inside the property quantifier). Exploration only: the input space is sampled.',
+   tech='recorded minimisation calls validated by a TLC trace specification with named deviation operators for the known findings'),
 }
 PENDING = 'check not built yet in this round (work in progress; see DESIGN.md section 5)'
 m = {
